@@ -7,6 +7,8 @@
 import MoreExec.Proofs.Throttle.Inv
 import MoreExec.Proofs.Throttle.Fifo
 import MoreExec.Proofs.Throttle.Sleep
+import MoreExec.Proofs.Throttle.K4
+import MoreExec.Model.BlockProto
 
 namespace MoreExec.Throttle
 open MoreExec.Gen
@@ -64,11 +66,27 @@ theorem C07_no_idle_capacity (c : Option Nat) (as : List Act) (hs : ∀ a ∈ as
 /-- (count fall-back) A raising count callable leaves the last value in force. -/
 theorem C07_count_fallback (last : Option Nat) : evalThrottle last none = last := rfl
 
-/-- (regenerated facts of throttle.py) the blocking guard is `count is None or len(queue) < count`, the blocking
-loop tests `block` and the shutdown flag, and `_eval_throttle` falls back to the last value. -/
+/-- (regenerated facts of throttle.py) `_eval_throttle` falls back to the last value; the blocking test and its wait run under
+a `Condition` built on the queue's own lock; the admission section and `_do_cancel` notify that condition while holding the lock,
+`shutdown()` notifies it too; non-blocking mode never enters the protocol; the wait happens before the shutdown lock is taken and
+never on the hand-over thread itself. -/
 theorem C07_blocking_guard_facts :
-    K4.blockGuardIsNoneOrRoom = true ∧ K4.blockLoopTestsBlockAndShutdown = true ∧ K4.evalThrottleFallsBack = true := by
+    K4.evalThrottleFallsBack = true ∧ K4.blockTestAndWaitUnderCondition = true ∧ K4.blockSkippedWhenNotBlocking = true ∧
+    K4.roomIsConditionOnQueueLock = true ∧ K4.admissionNotifiesRoomUnderLock = true ∧ K4.cancelNotifiesRoomUnderLock = true ∧
+    K4.shutdownNotifiesRoom = true ∧ K4.blockBeforeShutdownGate = true ∧ K4.handOverThreadNeverBlocks = true := by
   decide
+
+/-- (blocking test, regenerated from the `while` of `_block_until_ready`) submit() works for every count value: with an unlimited
+count it never waits, after shutdown it never waits, and with a limit `n` it waits exactly while the queue holds `n` entries. -/
+theorem C07_block_test_spec (q : Nat) (sh : Bool) (n : Nat) :
+    K4.blockWait none q sh = false ∧ K4.blockWait (some n) q true = false ∧ K4.blockWait (some n) q false = decide (q ≥ n) := by
+  simp [K4.blockWait]
+
+/-- (regenerated from `_submit_loop_iter`) the hand-over thread's locked section notifies the blocked submitters exactly when it
+took at least one job off the queue. -/
+theorem C07_admission_notifies_iff_popped (q : List Nat) (r : Nat) (th : Option Nat) :
+    K4.admissionNotifies q r th = !(K4.admission q r th).1.isEmpty :=
+  admissionNotifies_spec q r th
 
 /-- (admission kernel, regenerated from `_submit_loop_iter`) takes a prefix of the queue, counts every taken job,
 stops only on an empty queue or a full counter, and never over-fills. -/
@@ -96,3 +114,101 @@ example : ((run (init (some 1)) (demoRun.take 16)).map (fun s => (s.wpc, s.flag,
     = some (.parked, false, 0, [1], 1) := by decide
 
 end MoreExec.Throttle
+
+namespace MoreExec.BlockProto
+open MoreExec.Gen
+
+/-- runs in which every submitter uses the same (static) limit `n` -/
+def StaticAct (n : Nat) : Act → Prop
+  | .check tv _ _ => tv = some n
+  | _ => True
+
+theorem blocked_inv_step (n : Nat) (s : St) (a : Act) (s' : St) (hg : StaticAct n a) (hi : 0 < s.parked → n ≤ s.qlen)
+    (h : step s a = some s') : 0 < s'.parked → n ≤ s'.qlen := by
+  cases a with
+  | enq => simp only [step] at h; cases h; intro hp; exact Nat.le_succ_of_le (hi hp)
+  | pop k =>
+    simp only [step] at h
+    split at h
+    · cases h
+      split
+      · rename_i hk; subst hk; simpa using hi
+      · intro hp; simp [notifyAll] at hp
+    · cases h
+  | cancelRm =>
+    simp only [step] at h
+    split at h
+    · cases h; intro hp; simp [notifyAll] at hp
+    · cases h
+  | check tv sh park =>
+    simp only [StaticAct] at hg
+    subst hg
+    simp only [step] at h
+    split at h
+    · rename_i hc
+      cases h
+      split
+      · rename_i hp
+        intro _
+        have hw := hc.2
+        rw [hp] at hw
+        have : K4.blockWait (some n) s.qlen sh = true := hw.symm
+        simp [K4.blockWait] at this
+        exact this.1
+      · exact hi
+    · cases h
+  | wake timeout =>
+    simp only [step] at h
+    split at h
+    · split at h
+      · cases h; intro hp; exact hi (by simp at hp; omega)
+      · cases h
+    · split at h
+      · cases h; exact hi
+      · cases h
+  | shutBegin => simp only [step] at h; split at h <;> cases h; exact hi
+  | shutFlip => simp only [step] at h; split at h <;> cases h; exact hi
+  | shutNotify => simp only [step] at h; cases h; intro hp; simp [notifyAll] at hp
+
+/-- (blocks only while the queue holds `count` entries) With a static limit `n`, in every reachable state of the blocking protocol
+— any number of submitters, any interleaving of their tests and waits with enqueues, hand-over sections, cancellations, time-outs
+and a shutdown — a submitter is asleep in `submit()` only if the queue holds at least `n` entries: nobody ever sleeps while there
+is room.  (The former implementation tested the queue and then waited on the hand-over thread's `Event`, two separate steps; a
+drain of the queue in between left the submitter asleep for the 30 s fall-back: found by the C07/blocked-with-room monitor and
+repaired in /repo.) -/
+theorem C07_blocked_only_while_full (n : Nat) (as : List Act) (hs : ∀ a ∈ as, StaticAct n a) (s : St)
+    (hrun : run init as = some s) : 0 < s.parked → n ≤ s.qlen :=
+  invariant_run_guarded step (StaticAct n) (fun x => 0 < x.parked → n ≤ x.qlen)
+    (fun m a m' hg hi hst => blocked_inv_step n m a m' hg hi hst) init (by simp [init]) as hs s hrun
+
+/-- (making room wakes everybody) a hand-over section that took at least one job, a successful cancel of a queued future and the
+shutdown notification leave no submitter parked: all of them have been notified. -/
+theorem C07_room_wakes_all (s s' : St) (a : Act) (h : step s a = some s')
+    (ha : (∃ k, 0 < k ∧ a = .pop k) ∨ a = .cancelRm ∨ a = .shutNotify) :
+    s'.parked = 0 ∧ s'.notified = s.notified + s.parked := by
+  rcases ha with ⟨k, hk, rfl⟩ | rfl | rfl
+  · simp only [step] at h
+    split at h
+    · cases h
+      have : k ≠ 0 := by omega
+      simp [this, notifyAll]
+    · cases h
+  · simp only [step] at h
+    split at h
+    · cases h; simp [notifyAll]
+    · cases h
+  · simp only [step] at h; cases h; simp [notifyAll]
+
+/-! Non-vacuity: limit 1; one job queued; a second submitter parks; the hand-over section pops the job and notifies; the submitter
+wakes, re-tests and passes. -/
+def demo : List Act := [.check (some 1) false false, .enq, .check (some 1) false true, .pop 1, .wake false, .check (some 1) false false, .enq]
+example : (run init demo).map (fun s => (s.qlen, s.parked, s.notified)) = some (1, 0, 0) := by decide
+example : ∀ a ∈ demo, StaticAct 1 a := by
+  intro a ha; simp only [demo, List.mem_cons, List.mem_nil_iff, or_false] at ha
+  rcases ha with h | h | h | h | h | h | h <;> subst h <;> simp [StaticAct]
+/-- a reachable state with a parked submitter (the hypothesis of `C07_blocked_only_while_full` is satisfiable) -/
+example : (run init (demo.take 3)).map (fun s => (s.qlen, s.parked)) = some (1, 1) := by decide
+/-- parking although there is room is not a run of the model -/
+example : (run init [.check (some 1) false true]).isSome = false := by decide
+
+end MoreExec.BlockProto
